@@ -2,11 +2,14 @@ use std::cmp::max;
 use inkayaku_board::constants::ZobristHash;
 
 pub struct ZobristHistory {
-    history: [ZobristHash; 5000],
+    history: Vec<ZobristHash>,
 }
 
 impl ZobristHistory {
     pub fn set(&mut self, index: u16, zobrist_hash: ZobristHash) {
+        if index as usize >= self.history.len() {
+            self.history.resize(index as usize + 1, 0);
+        }
         self.history[index as usize] = zobrist_hash;
     }
 
@@ -40,7 +43,7 @@ impl ZobristHistory {
 
 impl Default for ZobristHistory {
     fn default() -> Self {
-        Self { history: [0; 5000] }
+        Self { history: vec![0; 5000] }
     }
 }
 
